@@ -104,6 +104,10 @@ func cmdWitness(args []string) {
 	var src strings.Builder
 	src.WriteString("package p\n\nimport (\n\t\"errors\"\n\n\t\"" + b.Mod + "/ea\"\n\t\"" + b.Mod + "/eb\"\n)\n\ntype Inner struct{ V string }\ntype Inner2 struct{ V int }\ntype S1 struct{ I Inner }\ntype T1 struct{ I Inner2 }\ntype S2 struct{ J Inner }\ntype T2 struct{ J Inner2 }\ntype S3 struct{ K string }\ntype T3 struct{ K int }\ntype SE1 struct{ C ea.Col }\ntype TE1 struct{ C eb.Col }\ntype SE2 struct{ C ea.Col }\ntype TE2 struct{ C eb.Col }\ntype In6 struct{ L []int }\ntype Cu struct{ Tags []int }\ntype CuD struct{ Tags []int }\ntype S6 struct {\n\tI In6\n\tC Cu\n}\ntype T6 struct {\n\tI In6\n\tC CuD\n}\ntype S7 struct {\n\tI In6\n\tC Cu\n}\ntype T7 struct {\n\tI In6\n\tC CuD\n}\ntype S4 struct{ V string }\ntype T4 struct{ V string }\ntype S5 struct{ V string }\ntype T5 struct{ V string }\n\nfunc Fn(v string, kx int) string { return v }\n\nfunc Atoi(s string) (int, error) { return 0, errors.New(\"boom\") }\n")
 	for i, s := range scens {
+		if s.Kind == "emptypath" {
+			fmt.Fprintf(&src, "\n// goverter:converter\n// goverter:extend Atoi\n// goverter:wrapErrorsUsing %s/wx\n// goverter:output:file ../gen/c%d.go\n// goverter:output:package %s/gen\ntype C%d interface {\n\tM1(source *string) (*int, error)\n}\n", b.Mod, i, b.Mod, i)
+			continue
+		}
 		if s.Kind == "enumoff" {
 			fmt.Fprintf(&src, "\n// goverter:converter\n// goverter:enum:unknown @ignore\n%s// goverter:output:file ../gen/c%d.go\n// goverter:output:package %s/gen\ntype C%d interface {\n%s\tM1(source SE1) TE1\n%s\tM2(source SE2) TE2\n}\n",
 				enumLine(s.PC, ""), i, b.Mod, i, enumLine(s.P1, "\t"), enumLine(s.P2, "\t"))
@@ -128,6 +132,7 @@ func cmdWitness(args []string) {
 			wrapLine(s.PC, ""), i, b.Mod, i, wrapLine(s.P1, "\t"), wrapLine(s.P2, "\t"))
 	}
 	hx.WriteTree(*work, map[string]string{"p/in.go": src.String(),
+		"wx/wx.go": wxSource,
 		"ea/e.go": "package ea\n\ntype Col int\n\nconst (\n\tRed   Col = 1\n\tGreen Col = 2\n)\n",
 		"eb/e.go": "package eb\n\ntype Col int\n\nconst (\n\tGreen Col = 1\n\tRed   Col = 2\n)\n"})
 	t0 := time.Now()
@@ -140,7 +145,16 @@ func cmdWitness(args []string) {
 	inner := stv(map[string]any{"k": "b", "tok": "a"})
 	for i, o := range outs {
 		for m := 1; m <= 2; m++ {
-			if o.Gen == "ok" && scens[i].Kind == "enumoff" {
+			if o.Gen == "ok" && scens[i].Kind == "emptypath" {
+				if m == 1 {
+					b.WriteOutputs(i, o.Files)
+					b.OK[2*i] = true
+					b.Reg[2*i] = fmt.Sprintf("reflect.ValueOf((&gen.C%dImpl{}).M1)", i)
+					w.Write(map[string]any{"ins": []any{}, "lit": true, "calls": []any{map[string]any{"args": []any{ptrv(map[string]any{"k": "b", "tok": "#x"})}, "dump": []int{}}}})
+				} else {
+					w.Write(map[string]any{"ins": []any{}})
+				}
+			} else if o.Gen == "ok" && scens[i].Kind == "enumoff" {
 				if m == 1 {
 					b.WriteOutputs(i, o.Files)
 				}
@@ -225,7 +239,7 @@ func cmdWitness(args []string) {
 			why = hx.PanicClass(o.Why)
 		}
 		_, badc := b.BadComp[i]
-		imps, decls := hx.DescribeFiles(o.Files, map[string]string{b.Mod + "/p": "user"})
+		imps, decls := hx.DescribeFiles(o.Files, map[string]string{b.Mod + "/p": "user", b.Mod + "/wx": "wrap-pkg"})
 		if scens[i].Kind == "direct" {
 			msg[2*i+1] = "" // M2 of a direct program is only there to keep the registry shape; it is not judged
 		}
